@@ -92,6 +92,14 @@ CLAIMS = {
             "bound 2^32; only identical points are skipped and the early return only fires without pairs.",
             "Trusted: the two floor-division lemmas, int(math.sqrt) for these magnitudes, group-law correctness of the batched additions (C11). Assumes T >= 1.",
             "DESIGN.md section 3 C10"),
+    "C19": ("proof", "declared loop invariants checked by symbolic execution of one iteration + polynomial step identities and exponent inequalities; release-guard dominance for the root finders",
+            "Inverse2exp: invariant a*n == 1 (mod 2^t): base n mod 4 with t = 2 for odd n, step identity a'n - 1 = -(an - 1)^2, exponent t' = min(k, .) <= 2t, reduction modulo 2^t', "
+            "loop while t < k, None exactly for even n. InverseSqrt2exp: invariant a^2 n == 1 (mod 2^t): base (1, 3) under n == 1 (mod 8), identity 4(a'^2 n - 1) = e^2 (e - 3), "
+            "t' <= 2t - 2, None for k >= 3 exactly when n % 8 != 1. Sqrt2exp returns {r, M - r, H - r, H + r} with r the inverse of the inverse square root, [] iff none exists, "
+            "exhaustive filter for k < 3. DivmodRounded: a = x*b + y by the divmod axiom with offset (b+1)//2. The three small-root finders release a root only under "
+            "the divisibility test on f(root) of the same root. ContinuedFraction is the Euclid recurrence and appends (q, r, t) after the update.",
+            "Not decided (runtime values): the rational solver (echelon_form's row moves), completeness of the small-root finders, Sieve, PseudoAverage, Bias, UniformSumCdf, CombinedPValue numerics; product trees are under C03.",
+            "DESIGN.md section 3 C19"),
     "C16": ("other", "typestate / who-may-write analysis over the AST + symbolic path walk of all 24 Check bodies",
             "Decides, for every path of every Check body in the package, that each loop iteration records exactly one "
             "result entry on that iteration's artifact with an entry created in the same iteration, that the positive flag, "
